@@ -97,8 +97,8 @@ static void pipe_scenario(int readers, int writes, int reads_each)
   mc_eventf(obs);
 }
 
-MC_SCENARIO(pipe2_r1_w3, 3, 5) { pipe_scenario<1>(1, 3, 2); }
-MC_SCENARIO(pipe2_r2_w3, 2, 3) { pipe_scenario<1>(2, 3, 2); }
-MC_SCENARIO(pipe4_r1_w5, 3, 4) { pipe_scenario<2>(1, 5, 3); }
-MC_SCENARIO(pipe4_r2_w5, 2, 3) { pipe_scenario<2>(2, 5, 2); }
-MC_SCENARIO(pipe2_r2_w4, 2, 3) { pipe_scenario<1>(2, 4, 2); }
+MC_SCENARIO(pipe2_r1_w3, 4, 6) { pipe_scenario<1>(1, 3, 2); }
+MC_SCENARIO(pipe2_r2_w3, 3, 4) { pipe_scenario<1>(2, 3, 2); }
+MC_SCENARIO(pipe4_r1_w5, 4, 6) { pipe_scenario<2>(1, 5, 3); }
+MC_SCENARIO(pipe4_r2_w5, 3, 4) { pipe_scenario<2>(2, 5, 2); }
+MC_SCENARIO(pipe2_r2_w4, 3, 4) { pipe_scenario<1>(2, 4, 2); }
